@@ -82,8 +82,35 @@ pub trait PostConversionLinter {
         Ok(())
     }
 
-    fn visit_dim(&mut self, _dim_list: &DimList) -> Result<(), LintErrorPos> {
+    fn visit_dim(&mut self, dim_list: &DimList) -> Result<(), LintErrorPos> {
+        for dim_var_pos in &dim_list.variables {
+            self.visit_dim_type(dim_var_pos.element.var_type())?;
+        }
         Ok(())
+    }
+
+    /// Visits the expressions found in the type of a variable declared
+    /// by `DIM` or `REDIM`: the bounds of the dimensions of an array.
+    fn visit_dim_type(&mut self, dim_type: &DimType) -> Result<(), LintErrorPos> {
+        match dim_type {
+            DimType::Array(array_dimensions, _) => {
+                for array_dimension in array_dimensions {
+                    self.visit_array_dimension(array_dimension)?;
+                }
+                Ok(())
+            }
+            _ => Ok(()),
+        }
+    }
+
+    fn visit_array_dimension(
+        &mut self,
+        array_dimension: &ArrayDimension,
+    ) -> Result<(), LintErrorPos> {
+        if let Some(lbound) = &array_dimension.lbound {
+            self.visit_expression(lbound)?;
+        }
+        self.visit_expression(&array_dimension.ubound)
     }
 
     fn visit_on_error(
